@@ -49,6 +49,41 @@ def _filters_alive(expr):
     return None
 
 
+def reg_stores(func, REG):
+    """assignments of the function whose target is the registry attribute (or a slice of it)"""
+    out = []
+    for st in walk_local(func.node):
+        if isinstance(st, ast.Assign):
+            for t in st.targets:
+                base = t.value if isinstance(t, ast.Subscript) else t
+                d = dotted(base) or ''
+                if '.' in d and d.split('.')[-1] == REG:
+                    out.append(st)
+    return out
+
+
+def provenance(func, expr, depth=0, seen=None):
+    """(definitions, attribute reads) the value of `expr` is computed from: every assignment to every local it mentions
+    (transitively; comprehension variables excluded) and every attribute it loads"""
+    seen = seen if seen is not None else set()
+    bound = {n.id for c in ast.walk(expr) if isinstance(c, ast.comprehension) for n in ast.walk(c.target) if isinstance(n, ast.Name)}
+    defs, reads = [], [a for a in ast.walk(expr) if isinstance(a, ast.Attribute) and isinstance(a.ctx, ast.Load)]
+    for n in ast.walk(expr):
+        if isinstance(n, ast.Name) and isinstance(n.ctx, ast.Load) and n.id not in bound and n.id not in seen:
+            ds = [x for x in walk_local(func.node) if isinstance(x, (ast.Assign, ast.AugAssign)) and any(
+                is_name(tt, n.id) for tt in (x.targets if isinstance(x, ast.Assign) else [x.target]))]
+            if not ds:
+                continue
+            seen.add(n.id)
+            for x in ds:
+                defs.append(x)
+                if depth < 6:
+                    d2, r2 = provenance(func, x.value, depth + 1, seen)
+                    defs += d2
+                    reads += r2
+    return defs, reads
+
+
 def run(ctx):
     P = ctx.prog
     W = P.cls('Worker')
@@ -99,9 +134,7 @@ def run(ctx):
         # a local variable is fine if it is what gets written back or yielded later; only attribute targets are judged here
         if d is not None and '.' not in d:
             # local: must flow into a store to REG
-            flows = any(isinstance(s, ast.Assign) and is_name(s.value, d) and any(
-                (dotted(tt.value if isinstance(tt, ast.Subscript) else tt) or '').split('.')[-1] == REG for tt in s.targets)
-                for s in walk_local(act_f.node))
+            flows = any(st in provenance(act_f, s.value)[0] for s in reg_stores(act_f, REG))
             ctx.check('R1', f'pruned list `{d}` is written back to the registry', flows, 'Worker.active_children',
                       f'pruned-list-not-written-back:{d}', f'the pruned list is kept in local `{d}` and never stored to {REG}', where=loc(act_f, st))
             continue
@@ -110,40 +143,16 @@ def run(ctx):
                   f'the list pruned by is_alive() is stored to `{d or norm(t)}` ({readers} readers) instead of the registry `{REG}` '
                   'that register_child appends to and that is yielded: dead workers are never dropped',
                   where=loc(act_f, st))
-    # read-modify-write atomicity: the list that is written back is computed from the registry inside the same critical section
-    for st, t, d, over_reg in pruned_stores:
-        if not (d is not None and d.split('.')[-1] == REG):
-            continue
+    # read-modify-write atomicity: everything the written-back value is computed from (the read of the registry, every
+    # definition of every local on the way - copies, filters, slices) lies in the critical section that stores it
+    for st in reg_stores(act_f, REG):
         w = _inside_with_lock(pm, st, LOCK)
-        flt = _filters_alive(st.value)
-        srcs = []
-        for gen in getattr(flt, 'generators', []):
-            srcs.append(gen.iter)
-        atomic = w is not None
-        for it in srcs:
-            if isinstance(it, ast.Attribute) and it.attr == REG:
-                continue
-            if isinstance(it, ast.Name):
-                defs = [x for x in walk_local(act_f.node) if isinstance(x, ast.Assign) and any(is_name(tt, it.id) for tt in x.targets)]
-                if not defs or not all(w is not None and any(x is y for y in ast.walk(w)) for x in defs):
-                    atomic = False
-            else:
-                atomic = atomic and any(isinstance(a, ast.Attribute) and a.attr == REG for a in ast.walk(it))
-        if isinstance(st.value, ast.Name):
-            defs = [x for x in walk_local(act_f.node) if isinstance(x, ast.Assign) and any(is_name(tt, st.value.id) for tt in x.targets)]
-            atomic = atomic and bool(defs) and all(any(x is y for y in ast.walk(w)) for x in defs) if w is not None else False
+        chain, reads = provenance(act_f, st.value)
+        inside = set(id(y) for y in ast.walk(w)) if w is not None else set()
+        atomic = w is not None and all(id(x) in inside for x in chain) and all(id(r) in inside for r in reads if r.attr == REG)
         ctx.check('R2', 'the registry is read, pruned and written back within one critical section', atomic, 'Worker.active_children', 'prune-not-atomic',
-                  'active_children() computes the pruned list from a snapshot taken in an earlier critical section and writes it back in a later one: a worker registered by another '
+                  'active_children() computes the list it writes back from a snapshot taken in an earlier critical section (or outside any): a worker registered by another '
                   'thread in between is overwritten by the stale list and is never listed (nor auto-closed) again', where=loc(act_f, st))
-    # a store of a plain local into the registry: that local must have been computed under the same lock
-    for st in walk_local(act_f.node):
-        if isinstance(st, ast.Assign) and isinstance(st.value, ast.Name) and any((dotted(tt) or '').split('.')[-1] == REG and '.' in (dotted(tt) or '') for tt in st.targets):
-            w = _inside_with_lock(pm, st, LOCK)
-            defs = [x for x in walk_local(act_f.node) if isinstance(x, ast.Assign) and any(is_name(tt, st.value.id) for tt in x.targets)]
-            atomic = w is not None and bool(defs) and all(any(x is y for y in ast.walk(w)) for x in defs)
-            ctx.check('R2', 'the registry is read, pruned and written back within one critical section', atomic, 'Worker.active_children', 'prune-not-atomic',
-                      'active_children() writes back a list computed outside the critical section that stores it: a worker registered by another thread in between is lost',
-                      where=loc(act_f, st))
     # what is yielded must derive from the registry *after* pruning, inside the lock
     yields = [n for n in walk_local(act_f.node) if isinstance(n, (ast.Yield, ast.YieldFrom))]
     ctx.check('R1', 'active_children yields', bool(yields), 'Worker.active_children', 'no-yield', 'active_children yields nothing', where=loc(act_f, act_f.node))
